@@ -301,7 +301,7 @@ class Assembler:
             if s.is_id(k, 'if') and s.is_id(k + 1, 'let') and not s.is_id(k - 1, 'else'):
                 j = k + 2
                 d = 0
-                k_and = None
+                k_ands = []
                 while j < end:
                     if s.kind(j) == 'p':
                         c = s.s(j)
@@ -310,15 +310,18 @@ class Assembler:
                             continue
                         if c == '{':
                             break
-                        if c == '&&' and k_and is None:
-                            k_and = j
+                        if c == '&&':
+                            k_ands.append(j)
                     j += 1
-                if k_and is not None and j < end:
+                if k_ands and j < end:
                     kc = m[j]
-                    if s.is_id(kc + 1, 'else') or any(s.is_id(q, 'let') for q in range(k_and + 1, j)):
-                        raise ExtractError('unsupported construct: let-chain with an else branch or a second `let` in fn %s' % fp.item.name)
-                    ed.replace(s.t[k_and][1], s.t[k_and][2], '{ if')
-                    ed.insert(s.t[kc][2], ' }')
+                    if s.is_id(kc + 1, 'else'):
+                        raise ExtractError('unsupported construct: let-chain with an else branch in fn %s' % fp.item.name)
+                    # every top-level `&&` of the chain opens one more nested `if` (a conjunct that starts with `let` becomes an
+                    # `if let`); a `let` scrutinee cannot itself contain a top-level `&&`, so the split is the language's own
+                    for k_and in k_ands:
+                        ed.replace(s.t[k_and][1], s.t[k_and][2], '{ if')
+                    ed.insert(s.t[kc][2], ' }' * len(k_ands))
                     self.fired.add('14:let-chain-to-nested-if')
             # 16: `if COND { continue; }` as a statement directly inside a for-loop body (Verus: "for-loops do not yet support
             # continue")  ->  `if COND { } else { <rest of the loop body> }`
